@@ -172,6 +172,10 @@ func (vc *VC) modLocs(fi *FuncInfo, items []*ModItem, args []SV, st *State) []Lo
 		case *types.Pointer:
 			lv := vc.lvalOfSV(inner, t)
 			out = append(out, Loc{Space: 'O', TK: lv.TK, Ref: lv.Ref, Desc: "*" + m.Expr})
+		case *types.Chan:
+			tk := typeKey(u.Elem())
+			vc.eng.tkTypes[tk] = u.Elem()
+			out = append(out, Loc{Space: 'C', TK: tk, Ref: inner.L[0], Desc: m.Expr})
 		default:
 			vc.fail("modifies %s[*]: unsupported type %s", m.Expr, t)
 		}
@@ -336,6 +340,18 @@ func (vc *VC) gcIntrinsic(fr *Frame, inst *ssa.Function, args []SV) ([]SV, bool)
 			}
 		}
 		return []SV{scalar(and(cs...))}, true
+	case "gcTail":
+		return []SV{scalar(vc.chTail(args[0].L[0]))}, true
+	case "gcHead":
+		return []SV{scalar(vc.chHead(args[0].L[0]))}, true
+	case "gcCap":
+		return []SV{scalar(vc.chCap(args[0].L[0]))}, true
+	case "gcClosed":
+		return []SV{scalar(vc.chClosed(args[0].L[0]))}, true
+	case "gcAwaited":
+		return []SV{scalar(sel(vc.chGet("CH:awaited", "(Array Int Bool)"), args[0].L[0]))}, true
+	case "gcAt":
+		return []SV{vc.chAt(chanElem(ptype(0)), args[0].L[0], args[1].L[0])}, true
 	case "gcSameRef":
 		var cs []string
 		for j := range args[0].L {
